@@ -134,6 +134,7 @@ def aggregate(summaries, tier):
                       animation_ticks_to_kernel=tot.get('f2k_tick', 0)),
         drags=tot.get('drags', 0), drags_applied=tot.get('drags_applied', 0), frames=tot.get('frames', 0),
         faults_fired=dict(duplicate_report=tot.get('dup', 0), stale_report=tot.get('stale_reports', 0),
+                          short_report=tot.get('short_reports', 0),
                           delay='every message (seeded latency, cross-direction reordering follows from it)'),
         kernel_events_checked=tot.get('checks', 0),
         scene_shape_matrix=dict(cells_covered=len(matrix), cells=matrix),
